@@ -395,6 +395,32 @@ def compress_text_job(mn):
     return res
 
 
+def odd_label_job():
+    """A transfer to a LABEL that lies an odd number of bytes away is not representable either (offsets are multiples of 2):
+    it must be refused, never rounded.  (The program generators never put code at odd addresses, so this is probed here.)"""
+    asm = env.load_asm()
+    res = env.Result()
+    forms = ['beq x5, x6, L_odd', 'bne x8, x0, L_odd', 'bltu x5, x6, L_odd', 'jal x1, L_odd', 'jal x0, L_odd', 'j L_odd', 'jal L_odd', 'call L_odd',
+             'tail L_odd', 'beqz x8, L_odd', 'bgt x5, x6, L_odd', 'c.j %offset(L_odd)', 'c.jal %offset(L_odd)', 'c.beqz x8, %offset(L_odd)',
+             'c.bnez x9, %offset(L_odd)']
+    for form in forms:
+        for nbytes in (1, 3, 5, 7, 21, 127, 251):
+            for fwd in (True, False):
+                filler = 'bytes ' + ' '.join(['7'] * nbytes)
+                src = (form + '\n' + filler + '\nL_odd:\n') if fwd else ('L_odd:\n' + filler + '\n' + form + '\n')
+                for comp in (False, True):
+                    res.evaluations += 1
+                    res.nontrivial_count += 1
+                    try:
+                        out = bytes(asm.assemble(src, compress=comp))
+                    except Exception:
+                        continue
+                    res.fail('odd_label:%s' % form.split()[0], '%r with its label an odd number of bytes away (%d data bytes in between, compress=%s) is not refused: %s'
+                             % (form, nbytes, comp, out[:8].hex() if fwd else out[-8:].hex()), {'kind': 'text', 'source': src, 'compress': comp, 'expect': REFUSE, 'bytes': None})
+    res.sample({'odd_label_probe': forms[0], 'data bytes between': [1, 3, 5, 7, 21, 127, 251]})
+    return res
+
+
 def run(tier):
     chk = env.Check(PROP, tier)
     try:
@@ -405,6 +431,7 @@ def run(tier):
         c01.contrib_tables(mn) if rvref.fmt_of(mn) not in ('U', 'J') else None
     jobs = [(job32, (mn,)) for mn in sorted(rvref.BASE)] + [(job16, (mn,)) for mn in rvref.C_MNEMONICS]
     jobs += [(compress_text_job, (mn,)) for mn in sorted(COMP_CONFIGS)]
+    jobs += [(odd_label_job, ())]
     chk.merge(env.run_shards(_dispatch, jobs))
     api = chk.res.evaluations
     n_text = {'quick': 20000, 'thorough': 500000}[tier]
